@@ -67,7 +67,10 @@ func pruneTables(db objects.Store, survivingCommits [][]byte, allBlockKeys, allB
 				return err
 			}
 			i := sort.Search(len(tableHashes), func(i int) bool { return string(tableHashes[i]) >= string(commit.Table) })
-			tableFound[i] = true
+			// the table of a shallow commit is not in the store
+			if i < len(tableHashes) && string(tableHashes[i]) == string(commit.Table) {
+				tableFound[i] = true
+			}
 		}
 		for i, keep := range tableFound {
 			sum := tableHashes[i]
